@@ -61,9 +61,9 @@ __wrap_timerfd_settime(int fd, int flags, const struct itimerspec *n, struct iti
 #define NID	4
 
 enum { S_ADD = 1, S_ENABLE1, S_ENABLEF, S_DISABLE, S_DEL, S_READY, S_DRAIN, S_PEERCLOSE, S_FIRE, S_SETACT, S_PEXIT, S_PEERSHUT };
-enum { ACT_NONE = 0, ACT_DISABLE_SELF, ACT_DEL_SELF, ACT_ENABLE_OTHER, ACT_DRAIN_SELF };
+enum { ACT_NONE = 0, ACT_DISABLE_SELF, ACT_DEL_SELF, ACT_ENABLE_OTHER, ACT_DRAIN_SELF, ACT_DEL_OTHERS, ACT_DISABLE_OTHERS, ACT_LAST = ACT_DISABLE_OTHERS };
 static const char *stepname[] = { "?", "add", "enable1", "enableF", "disable", "del", "ready", "drain", "peerclose", "fire", "setact", "child-exits", "peer-half-close" };
-static const char *actname[] = { "none", "disable-self", "del-self", "enable-other", "drain-self" };
+static const char *actname[] = { "none", "disable-self", "del-self", "enable-other", "drain-self", "del-others", "disable-others" };
 static const char *idname[] = { "A(pipe)", "B(sock)", "T(timer)", "P(process)" };
 
 typedef struct step_s { uint8_t op, id, a, b; } step_t;	/* add: a = event, b = flags; setact: a = action */
@@ -83,6 +83,7 @@ static reg_t R[NID];
 static tp_p tp;
 static tpt_p t0;
 static int cur_step, settle_left, shutdown_sent, in_iteration, iter_cb;
+static int last_n = 1;	/* events returned by the last epoll_wait */
 static int window_need[NID];	/* member of the fireable set during the whole current settle window */
 static int grid_mode = 0;	/* timer/validation grids: callbacks are not checked */
 static int hist_failed;
@@ -200,6 +201,22 @@ user_cb(tp_event_p ev, tp_udata_p ud) {
 	case ACT_DRAIN_SELF:
 		do_drain(id);
 		break;
+	case ACT_DEL_OTHERS:	/* every other registration of this thread, ready or not: after the call returned (here, on
+				 * the owning thread) none of them may fire, also not from events the loop fetched earlier */
+	case ACT_DISABLE_OTHERS:
+		if (ID_P == id) break;
+		for (other = 0; other < 3; other ++) {
+			if (other == id || !R[other].m_reg) continue;
+			if (ACT_DEL_OTHERS == r->act) {
+				rc = tpt_ev_del_args1((uint16_t)R[other].m_event, &R[other].ud);
+				if (0 == rc) R[other].m_reg = 0;
+			} else {
+				rc = tpt_ev_enable_args1(0, (uint16_t)R[other].m_event, &R[other].ud);
+				if (0 == rc) { R[other].m_en = 0; if (ID_T == other) R[other].m_ready = 0; }
+			}
+			window_need[other] = 0;
+		}
+		break;
 	}
 }
 
@@ -276,7 +293,7 @@ apply_step(const step_t *s) {
 		if (0 != rc)
 			hfail("disable-refused", "disable of a registered event refused rc=%d", rc);
 		else if (ID_P == s->id) {
-			r->m_reg = 0; /* documented: for a process event disable == delete (the pidfd is closed) */
+			r->m_en = 0; /* (the library closes the pidfd; enabling opens a new one) */
 		} else {
 			r->m_en = 0;
 			if (ID_T == s->id) r->m_ready = 0; /* disarmed */
@@ -363,16 +380,16 @@ __wrap_epoll_wait(int epfd, struct epoll_event *ev, int maxev, int timeout) {
 		return (__real_epoll_wait(epfd, ev, maxev, timeout));
 	if (in_iteration) {
 		in_iteration = 0;
-		if (iter_cb > 1)
-			hfail("two-callbacks-one-iteration", "%d callbacks in one loop iteration", iter_cb);
+		if (iter_cb > last_n)
+			hfail("two-callbacks-one-iteration", "%d callbacks for %d event(s) fetched", iter_cb, last_n);
 	}
 	for (;;) {
 		if (settle_left > 0) {
-			n = __real_epoll_wait(epfd, ev, 1, 0);
+			n = __real_epoll_wait(epfd, ev, maxev, 0);	/* as many as the loop asks for: a loop that fetches batches gets batches */
 			if (n > 0) {
-				settle_left --;
+				settle_left = (settle_left > n) ? settle_left - n : 0;
 				in_iteration = 1;
-				iter_cb = 0;
+				iter_cb = 0; last_n = n;
 				if (0 == settle_left)
 					end_window();
 				return (n);
@@ -383,8 +400,8 @@ __wrap_epoll_wait(int epfd, struct epoll_event *ev, int maxev, int timeout) {
 		}
 		if (shutdown_sent) {
 			/* the shutdown message is in the queue: the loop must get it */
-			n = __real_epoll_wait(epfd, ev, 1, 1000);
-			if (n > 0) { in_iteration = 1; iter_cb = 0; return (n); }
+			n = __real_epoll_wait(epfd, ev, maxev, 1000);
+			if (n > 0) { in_iteration = 1; iter_cb = 0; last_n = n; return (n); }
 			hfail("harness", "shutdown message never became ready");
 			return (n);
 		}
@@ -487,7 +504,7 @@ enumerate(int depth, abs_t a) {
 			PUSH(S_DISABLE, id, 0, 0); enumerate(depth + 1, a);
 			b = a; b.reg[id] = 0;
 			PUSH(S_DEL, id, 0, 0); enumerate(depth + 1, b);
-			for (act = 1; act <= ACT_DRAIN_SELF; act ++) {
+			for (act = 1; act <= ACT_LAST; act ++) {
 				if (ID_T == id && ACT_DRAIN_SELF == act) continue;
 				PUSH(S_SETACT, id, act, 0); enumerate(depth + 1, a);
 			}
@@ -647,9 +664,12 @@ enumerate_proc(int depth, int preg, int forked, int alive, int areg) {
 	if (!forked) {
 		for (f = 0; f < 3; f ++) { PUSH(S_ADD, ID_P, TP_EV_PROC, flagset[f]); enumerate_proc(depth + 1, 1, 1, 1, areg); }
 	}
-	if (preg) {
+	if (1 == preg) {
 		PUSH(S_DEL, ID_P, 0, 0); enumerate_proc(depth + 1, 0, forked, alive, areg);
-		PUSH(S_DISABLE, ID_P, 0, 0); enumerate_proc(depth + 1, 0, forked, alive, areg);
+		PUSH(S_DISABLE, ID_P, 0, 0); enumerate_proc(depth + 1, 2, forked, alive, areg);
+	}
+	if (2 == preg) {	/* disabled: enabling it again must bring the event back, also when the child exited meanwhile */
+		PUSH(S_ENABLE1, ID_P, 0, 0); enumerate_proc(depth + 1, 1, forked, alive, areg);
 	}
 	if (alive) {
 		PUSH(S_PEXIT, ID_P, 0, 0); enumerate_proc(depth + 1, preg, forked, 0, areg);	/* preg stays: the model decides whether it fires */
